@@ -172,7 +172,9 @@ Eval(e, env) ==
                                  ELSE LET z == Eval(e.args[1], env) IN
                                       IF IsErr(z) THEN Err ELSE IF z.t # "string" THEN Indef
                                       ELSE LET off == ZoneOffset(z.v, BigOf(x)) IN
-                                           IF off = NoOffset THEN Indef ELSE IntV(FromInt(Accessor(e.f, BigOf(x), off))))
+                                           IF off = NoOffset THEN Indef
+                                           ELSE IF Fields(BigOf(x), off).y \notin 1..9999 THEN Indef      \* the local date leaves years 0001..9999
+                                           ELSE IntV(FromInt(Accessor(e.f, BigOf(x), off))))
                            [] Unbound(e.f) -> Err
                            [] e.f = "size" /\ SizeOverridden(env) -> (IF AnyErrSeq(<<x>> \o EvalSeq(e.args, env)) THEN Indef ELSE IntV(FromInt(-1)))
                            [] e.f = "size" /\ Len(e.args) = 0 -> SizeOf(x)
